@@ -19,6 +19,9 @@ func checkC06(c *Ctx) {
 	r.Rule("R17.6", "(shared with C17) the level tag of a given width: every tag literal and every tag a registration stores under width n has n characters")
 	r.Rule("R08.1", "(shared with C08) what a record says was logged by this call: nothing on the print path writes memory that outlives the call other than the pooled objects of this call")
 	r.Rule("R08.2", "(shared with C08) attribute lists that are sorted/compacted in place or appended to belong to this call, never to a logger, handler, group or caller")
+	r.Rule("R07.3", "(shared with C07) ascending key order: the member list is sorted by a stable sort whose comparator reads Key() only, orders ascending, and is a consistent three-way order also for nil placeholders")
+	r.Rule("R07.4", "(shared with C07) the list given is sorted, then de-duplicated, and the loop prints the result")
+	r.Rule("R05.10", "(shared with C05) the message is handed on as given from the verbs to the encoder's message field")
 	r.Rule("R06.4", "no pooled encoder field is read stale in colored mode (engine E10): remaining lines, colours and the end-of-line flag of a previous record cannot surface")
 	r.Assume("messages contain no escape bytes and no HTML-like markup (the property's domain for hygiene/layout); the markup translator of the dependency is treated as text")
 	mode := Mode{false, false}
@@ -36,6 +39,8 @@ func checkC06(c *Ctx) {
 		c06SGR(c, p, m, mr)
 		c06Layout(c, p, m, mr)
 		padUnbounded(c, p)
+		c07Sort(c, p, m)
+		messageIdentity(c, p, "R05.10")
 		c08Stores(c, p, m)
 		c05Quoting(c, p, m, mr)
 		c09Globals(c, p, m)
